@@ -161,7 +161,7 @@ def _be(v, w):
     return int(v).to_bytes(w, "big") if w else b""
 
 
-def write_history(revisions, r, header=b"%PDF-1.5\n"):
+def write_history(revisions, r, header=b"%PDF-1.5\n", encrypt=None, trailer_extra=None):
     """revisions: list (oldest first) of dicts {defs: {objid: value}, form: table|stream|hybrid,
     packed: set(objids stored in object streams), eol: b'\\n'|b'\\r\\n'|b'\\r', root: objid, info: objid|None}.
     `r` is a random.Random used for the writer's free choices (W widths, /Index partition, subsection splits).
@@ -201,13 +201,16 @@ def write_history(revisions, r, header=b"%PDF-1.5\n"):
         for n in sorted(direct):
             offsets[n] = len(out)
             content[len(out)] = (n, direct[n])
-            out += b"%d 0 obj" % n + eol + ser(direct[n]) + eol + b"endobj" + eol
+            val = encrypt(n, direct[n]) if encrypt is not None else direct[n]     # object streams are encrypted as a whole
+            out += b"%d 0 obj" % n + eol + ser(val) + eol + b"endobj" + eol
         maxid = max([maxid] + list(direct) + list(packed))
         trailer = {"Size": maxid + 2, "Root": Ref(rev["root"])}
         if rev.get("info") is not None:
             trailer["Info"] = Ref(rev["info"])
         if prev is not None:
             trailer["Prev"] = prev
+        if trailer_extra:
+            trailer.update(trailer_extra)
 
         def xref_stream(entries, extra):
             """entries: {objid: (type, f2, f3)} -> object text of an xref stream; returns (objid, bytes, sect)"""
